@@ -23,7 +23,8 @@ import (
 type C06Case struct {
 	Data     Dataset `json:"data"`
 	Writer   string  `json:"writer"`  // mem-file | mem-db | big | cli | cli-big | kill | kill-big (real binary, SIGKILL at the N-th pwrite64)
-	Kills    []int   `json:"kills,omitempty"` // per-mille positions in the pwrite64 sequence at which the real process is killed
+	Kills    []int   `json:"kills,omitempty"` // per-mille positions in the write sequence at which the real process is killed
+	Large    bool    `json:"large,omitempty"` // several MiB of bitmaps (hundreds of thousands of distinct values): size thresholds of anything that batches by bytes
 	Samples  int     `json:"samples"` // sampled sub-commit crash images
 	WriteErr []WErr  `json:"write_errors"`
 	Queries  []*Query `json:"queries"`
@@ -33,6 +34,7 @@ type WErr struct {
 	At    int    `json:"at"`    // per-mille position in the write sequence of the output file
 	Kind  string `json:"kind"`  // eio | enospc
 	Short bool   `json:"short"` // a prefix of the buffer is written first
+	Temp  bool   `json:"temp,omitempty"` // the failing write is one of the big writer's TEMP database, not of the output
 }
 
 func init() {
@@ -49,6 +51,7 @@ func genC06(c *Ctx) any {
 		for i, n := 0, r.Range(3, 6); i < n; i++ {
 			cs.Kills = append(cs.Kills, r.Intn(1000))
 		}
+		cs.Large = r.Chance(1, 4)
 	}
 	// datasets on both sides of the 1000-value and 1000-row batches
 	vals := []int{0, 1, 5, 999, 1000, 1001, 2001, 3500}[r.Intn(8)]
@@ -78,13 +81,21 @@ func genC06(c *Ctx) any {
 			sp.Cols[i].Missing = 0 // CSV records carry every column
 		}
 	}
+	if cs.Large {
+		sp.N = r.Range(15000, 25000)
+		sp.Cols = nil
+		for i, nc := 0, r.Range(8, 12); i < nc; i++ {
+			sp.Cols = append(sp.Cols, ColSpec{Name: S(colNames[i]), Card: sp.N, Shape: "unique", Kind: "num"})
+		}
+	}
 	cs.Data.Spec = sp
 	cs.Samples = 6
 	if c.Thorough() {
 		cs.Samples = 30
 	}
 	for i, n := 0, r.Range(1, 3); i < n; i++ {
-		cs.WriteErr = append(cs.WriteErr, WErr{At: r.Intn(1000), Kind: []string{"eio", "enospc"}[r.Intn(2)], Short: r.Chance(1, 3)})
+		cs.WriteErr = append(cs.WriteErr, WErr{At: r.Intn(1000), Kind: []string{"eio", "enospc"}[r.Intn(2)], Short: r.Chance(1, 3),
+			Temp: (cs.Writer == "big" || cs.Writer == "cli-big") && r.Chance(1, 2)})
 	}
 	si := infoOf(sp.Expand())
 	for i := 0; i < 12; i++ {
@@ -382,6 +393,19 @@ func runC06(c *Ctx, body json.RawMessage) *Verdict {
 		path := c.Path(fmt.Sprintf("werr-%d.updog", wi))
 		d2 := simrt.NewDisk()
 		d2.FailAt, d2.FailErr, d2.FailShort, d2.FailOnly = at, we.Kind, we.Short, path
+		if we.Temp {
+			ntemp := 0
+			for _, p := range d.Order {
+				if p != out {
+					ntemp += len(d.Files[p].Writes)
+				}
+			}
+			if ntemp == 0 {
+				continue
+			}
+			at = we.At * ntemp / 1000
+			d2.FailAt, d2.FailOnly, d2.FailExcept = at, "", path
+		}
 		simrt.SetMapSeed(mapSeed)
 		simrt.AttachDisk(d2)
 		err2, p2, hung2 := writeIndex(c, cs.Writer, path, rows)
@@ -395,11 +419,18 @@ func runC06(c *Ctx, body json.RawMessage) *Verdict {
 		}
 		if d2.Fired > 0 {
 			v.Count("fault_write_error_"+we.Kind, 1)
+			if we.Temp {
+				v.Count("fault_write_error_in_temp_db", 1)
+			}
 			if we.Short {
 				v.Count("fault_short_write", 1)
 			}
 			if err2 == nil {
-				return v.Violate("write-error-swallowed", "writer %s returned nil although write %d of the output file failed with %s", cs.Writer, at, we.Kind)
+				which := "the output file"
+				if we.Temp {
+					which = "the temporary database"
+				}
+				return v.Violate("write-error-swallowed", "writer %s returned nil although write %d of %s failed with %s", cs.Writer, at, which, we.Kind)
 			}
 			if b, e := os.ReadFile(path); e == nil {
 				images = append(images, imageSpec{name: fmt.Sprintf("file left behind after %s at write %d/%d (writer returned: %v)", we.Kind, at, len(fl.Writes), err2), data: b, mid: true})
@@ -435,23 +466,47 @@ func runC06(c *Ctx, body json.RawMessage) *Verdict {
 // right before its n-th bbolt write (process-wide count, program order: replays exactly).
 // n <= 0 only counts the writes of an undisturbed run. Returns the number of writes seen.
 func killedRun(c *Ctx, n int, args ...string) (int, error) {
+	nw, _, err := killedRunLog(c, n, "", args...)
+	return nw, err
+}
+
+// killedRunLog additionally returns the 1-based positions (in the process-wide write
+// sequence) of the writes that went to the file named target.
+func killedRunLog(c *Ctx, n int, target string, args ...string) (int, []int, error) {
 	bin := os.Getenv("VERIF_UPDOG_SIM_BIN")
 	if bin == "" {
-		return 0, fmt.Errorf("VERIF_UPDOG_SIM_BIN not set")
+		return 0, nil, fmt.Errorf("VERIF_UPDOG_SIM_BIN not set")
 	}
 	log := c.Path("writes.log")
 	os.Remove(log)
+	os.Remove(log + ".files")
 	cmd := exec.Command(bin, args...)
 	cmd.Env = append(os.Environ(), "TMPDIR="+c.Dir, "VERIF_WRITE_LOG="+log)
 	if n > 0 {
 		cmd.Env = append(cmd.Env, fmt.Sprintf("VERIF_KILL_AT_WRITE=%d", n))
 	}
 	_ = cmd.Run()
-	st, err := os.Stat(log)
+	b, err := os.ReadFile(log)
 	if err != nil {
-		return 0, err
+		return 0, nil, err
 	}
-	return int(st.Size()), nil
+	var pos []int
+	if target != "" {
+		var tag byte
+		if fb, e := os.ReadFile(log + ".files"); e == nil {
+			for _, line := range strings.Split(string(fb), "\n") {
+				if len(line) > 2 && line[2:] == target {
+					tag = line[0]
+				}
+			}
+		}
+		for i, x := range b {
+			if tag != 0 && x == tag {
+				pos = append(pos, i+1)
+			}
+		}
+	}
+	return len(b), pos, nil
 }
 
 // runC06Kill is the process tier: the instrumented twin of the real `updog create` is killed
@@ -472,13 +527,20 @@ func runC06Kill(c *Ctx, cs *C06Case, v *Verdict, rows []Row) *Verdict {
 	if cs.Writer == "kill-big" {
 		mode = []string{"create", "-b"}
 	}
-	nw, err := killedRun(c, 0, append(mode, "-o", c.Path("full.updog"), in)...)
+	full := c.Path("full.updog")
+	nw, outPos, err := killedRunLog(c, 0, full, append(mode, "-o", full, in)...)
 	if err != nil || nw == 0 {
 		return v.Harness("baseline run of the instrumented binary: %v (%d writes)", err, nw)
 	}
 	var images []imageSpec
 	for ki, pm := range cs.Kills {
 		n := 1 + pm*nw/1000
+		if ki%2 == 1 && len(outPos) > 0 {
+			// every other kill lands among the writes of the OUTPUT file itself (which may be a
+			// small tail of the run when the index is first built elsewhere)
+			n = outPos[pm*len(outPos)/1000]
+			v.Count("fault_sigkill_among_output_writes", 1)
+		}
 		out := c.Path(fmt.Sprintf("killed-%d.updog", ki))
 		_, _ = killedRun(c, n, append(mode, "-o", out, in)...)
 		v.Count("fault_sigkill_before_write", 1)
@@ -492,6 +554,9 @@ func runC06Kill(c *Ctx, cs *C06Case, v *Verdict, rows []Row) *Verdict {
 	}
 	bad, progress, res := recoverImages(c, v, images, ref, cs.Queries)
 	v.Count("images_checked", int64(len(images)))
+	if cs.Large {
+		v.Count("probe_large_payload_kill", 1)
+	}
 	v.StateKey = simrt.Hash3(simrt.HashStr(cs.Writer), uint64(nw), uint64(bucket(len(rows))))
 	if res != nil && (res.Hang || res.Deadlock) {
 		v.Fatal = true
